@@ -42,6 +42,7 @@ type Contract struct {
 	IntMode   string // ideal | checked | wrap
 	Safety    bool
 	Requires  []*Clause
+	Assumes   []*Clause // entry assumptions: used in the body's proof, NOT required from callers; reported as assumptions
 	Ensures   []*Clause
 	Aux       []*Clause
 	Modifies  []string // designator source texts
@@ -89,10 +90,10 @@ type MemoDecl struct {
 	Line              string
 }
 
-var clauseKW = map[string]bool{"ints": true, "safety": true, "requires": true, "ensures": true, "aux": true, "modifies": true,
+var clauseKW = map[string]bool{"ints": true, "safety": true, "requires": true, "assume": true, "ensures": true, "aux": true, "modifies": true,
 	"loop": true, "call": true, "callback": true, "reveal": true, "opaque": true, "trusted": true, "inline": true, "pure": true, "float": true}
 
-var reHead = regexp.MustCompile(`^(requires|ensures|aux|invariant|assert|decreases)(\[[^\]]+\])?\s*(.*)$`)
+var reHead = regexp.MustCompile(`^(requires|assume|ensures|aux|invariant|assert|decreases)(\[[^\]]+\])?\s*(.*)$`)
 
 // ParseContracts parses the //@ lines of one contracts_verif.go file.
 func ParseContracts(filename, pkgPath string, src []byte) (*PkgContracts, error) {
@@ -371,6 +372,11 @@ func parseClause(c *Contract, text, loc string) error {
 				cl.Label = fmt.Sprintf("r%d", len(c.Requires)+1)
 			}
 			c.Requires = append(c.Requires, cl)
+		case "assume":
+			if cl.Label == "" {
+				cl.Label = fmt.Sprintf("as%d", len(c.Assumes)+1)
+			}
+			c.Assumes = append(c.Assumes, cl)
 		case "ensures":
 			if cl.Label == "" {
 				cl.Label = fmt.Sprintf("e%d", len(c.Ensures)+1)
